@@ -177,12 +177,29 @@ func (d *c05Describer) describe(v reflect.Value) *ev.Node {
 	case reflect.Struct:
 		_, isRecord := d.records[v.Type()]
 		n := &ev.Node{Tag: "map"}
-		for i := 0; i < v.NumField(); i++ {
-			f := v.Type().Field(i)
-			if f.PkgPath != "" {
-				continue
+		// fields of anonymously embedded structs are promoted into the embedding struct, in declaration order
+		type fieldVal struct {
+			f  reflect.StructField
+			fv reflect.Value
+		}
+		var flat []fieldVal
+		var flatten func(sv reflect.Value)
+		flatten = func(sv reflect.Value) {
+			for i := 0; i < sv.NumField(); i++ {
+				f := sv.Type().Field(i)
+				if f.PkgPath != "" {
+					continue
+				}
+				if f.Anonymous && f.Type.Kind() == reflect.Struct {
+					flatten(sv.Field(i))
+					continue
+				}
+				flat = append(flat, fieldVal{f, sv.Field(i)})
 			}
-			fv := v.Field(i)
+		}
+		flatten(v)
+		for _, x := range flat {
+			f, fv := x.f, x.fv
 			if !isRecord {
 				switch d.cfg.Iterator.DefaultFieldOmitBehavior {
 				case configuration.OmitFieldEmpty, configuration.OmitFieldChooseDefault:
